@@ -12,7 +12,15 @@ import (
 // splitmix64: every random choice of a run derives from one seed.
 type rng struct{ s uint64 }
 
-func newRng(seed uint64) *rng { return &rng{s: seed*0x9E3779B97F4A7C15 + 0x1234567} }
+// The seed goes through the splitmix64 finaliser, so that the streams of
+// consecutive seeds are unrelated (seed*gamma+c alone would make the stream of
+// seed+1 the stream of seed shifted by one draw).
+func newRng(seed uint64) *rng {
+	z := seed*0x9E3779B97F4A7C15 + 0x1234567
+	z = (z ^ (z >> 30)) * 0xBF58476D1CE4E5B9
+	z = (z ^ (z >> 27)) * 0x94D049BB133111EB
+	return &rng{s: z ^ (z >> 31)}
+}
 
 func (r *rng) u64() uint64 {
 	r.s += 0x9E3779B97F4A7C15
